@@ -186,7 +186,11 @@ def _cases_task(task):
         if rng.random() < 0.15:
             kw = rng.choice([{"minor_add": 0.5}, {"minor_miss": 1.0}, {"minor_add": 2.0}, {"threshold": 0.3}])
         prof = _profile(**kw)
-        cov = evidence.make_coverage(g, prof, table, low)
+        indels = None
+        if rng.random() < 0.25:
+            table, indels = evidence.realistic_indels(table)
+            low = None
+        cov = evidence.make_coverage(g, prof, table, low, indels)
         msol = make_major_sol(g, struct, called, novel)
         raised = ""
         try:
@@ -197,7 +201,7 @@ def _cases_task(task):
         enum = mode == "noisy" or (mode == "witness" and small_enough(g, called, table))
         rows.append(project.minor_case(cid, g, cov, msol, res, enumerate_all=enum, planted=planted, raised=raised))
         meta[cid] = {"gene": f"{gname}/{genome}", "struct": struct, "called": called, "bag": bag, "table": table, "low": low,
-                     "params": kw, "mode": mode, "novel": [list(x) for x in novel], "noise_free": planted is not None, "raised": raised, "enumerate": enum,
+                     "params": kw, "mode": mode, "indels": [[k[0], k[1], v[0], v[1]] for k, v in (indels or {}).items()], "novel": [list(x) for x in novel], "noise_free": planted is not None, "raised": raised, "enumerate": enum,
                      "result": [([(sa.major, sa.minor, [str(x) for x in sa.added], [str(x) for x in sa.missing]) for sa in s.solution], s.score) for s in res]}
     return rows, meta
 
@@ -308,7 +312,8 @@ def replay(path):
     g = genes.load(gname, genome)
     table = {int(p): v for p, v in m["table"].items()}
     low = {int(p): {o: tuple(x) for o, x in v.items()} for p, v in (m.get("low") or {}).items()} or None
-    cov = evidence.make_coverage(g, _profile(**m["params"]), table, low)
+    indels = {(int(a), b): (c, d) for a, b, c, d in m.get("indels", [])} or None
+    cov = evidence.make_coverage(g, _profile(**m["params"]), table, low, indels)
     msol = make_major_sol(g, m["struct"], m["called"], m.get("novel", []))
     with aldyenv.quiet_stderr():
         res = run_minor(g, cov, msol)
